@@ -117,6 +117,8 @@ class UpdateCore(probe.Contract):
 
 class Solver(ApiImmut):
     """end-to-end contract on sle.als / sle.mals"""
+    freeze = True  # the oracle sees the arguments as they were at call entry; arrays / lists rewritten by the call are reported
+    input_prop = 'C07'
 
     def __init__(self, name):
         ApiImmut.__init__(self, 'sle.' + name)
